@@ -8,6 +8,7 @@ package main
 //     ghost byte stream (D, Pos) behind io.Reader / io.ReadSeeker.
 
 import (
+	"fmt"
 	"go/ast"
 	"go/token"
 	"go/types"
@@ -52,6 +53,17 @@ func (fc *FuncCtx) evalIntrinsic(st *State, call *ast.CallExpr, fn *types.Func, 
 			hv := fc.fresh("havoc_"+fn.Name(), cur.T)
 			fc.havocSources = append(fc.havocSources, hv)
 			fc.assign(st, ue.X, hv)
+		} else if pt, ok := fc.typeOf(de).Underlying().(*types.Pointer); ok {
+			// a pointer variable: whatever it points to may be rewritten
+			pv := fc.eval(st, de)
+			fc.oblige(st, "panic.nilptr", "", not(fc.reg().isNil(pv)), call, "decoding into possibly nil pointer "+exprStr(de))
+			old := fc.reg().deref(pv)
+			hv := fc.fresh("havoc_"+fn.Name(), pt.Elem())
+			fc.havocSources = append(fc.havocSources, hv)
+			star := &ast.StarExpr{X: de}
+			fc.info.Types[star] = types.TypeAndValue{Type: pt.Elem()}
+			fc.assign(st, star, hv)
+			fc.fileViewFacts(st, fn, pt.Elem(), old, hv, call)
 		} else {
 			fc.fail(call, "%s: pointer argument must be the address of a variable", fn.Name())
 		}
@@ -205,4 +217,38 @@ func (w *World) checkIntrinsicWrapper(key string, spec []string) string {
 		return "intrinsic wrapper does not use binary.BigEndian"
 	}
 	return ""
+}
+
+// fileViewFacts: yaml.Unmarshal into vflow.Options is the configuration-file source of C17. Its assumed semantics:
+// a setting whose yaml key is present in the file (fileHas) takes the file's value (fileB/fileI/fileS), a setting
+// whose key is absent keeps its value. Fields without a scalar kind or yaml tag stay unknown.
+func (fc *FuncCtx) fileViewFacts(st *State, fn *types.Func, elem types.Type, old, now Term, n ast.Node) {
+	if fn.Pkg() == nil || fn.Pkg().Path() != "gopkg.in/yaml.v2" || fn.Name() != "Unmarshal" {
+		return
+	}
+	named, ok := elem.(*types.Named)
+	if !ok || named.Obj().Name() != "Options" || named.Obj().Pkg() == nil || named.Obj().Pkg().Path() != repoModule+"/vflow" {
+		return
+	}
+	fields, msg := fc.w.optionFields()
+	if msg != "" {
+		fc.fail(n, "configuration-file view: %s", msg)
+	}
+	if fc.w.Uninterps["fileHas"] == nil {
+		return
+	}
+	fc.usedContracts["assumed: yaml.Unmarshal into vflow.Options sets exactly the settings whose keys are present in the file"] = true
+	for _, f := range fields {
+		if f.tag == "" {
+			continue
+		}
+		e, err := parseCExpr(fmt.Sprintf("n.%s == (fileHas(%q) ? file%s(%q) : o.%s)", f.name, f.tag, f.kind, f.tag, f.name))
+		if err != nil {
+			continue
+		}
+		env := fc.w.newEnv(fc.pkg)
+		env.vars["n"] = now
+		env.vars["o"] = old
+		fc.assume(st, env.eval(e).S)
+	}
 }
